@@ -38,6 +38,7 @@ FLOAT_SEMANTICS = ("frame obligations: exact (payloads are opaque reals / uninte
                    "split-run obligations: IEEE-754 double, relaxed rounding (sound over-approximation); off-grid families: the stop and event Julian dates are IEEE-754 doubles in "
                    "bit-exact semantics (symx.fp exact mode; models are doubles and are replayed bit for bit); cadence-config: exact integers")
 ENCODED = [
+    "resonaate.scenario.scenario:Scenario.removeTarget",
     "resonaate.scenario.scenario:Scenario.__init__", "resonaate.scenario.scenario:Scenario.propagateTo", "resonaate.scenario.scenario:Scenario.stepForward",
     "resonaate.scenario.scenario:Scenario.saveDatabaseOutput", "resonaate.scenario.clock:ScenarioClock.ticToc",
     "resonaate.parallel:JobExecutor.enqueueJob", "resonaate.parallel:JobExecutor.join",
@@ -1640,6 +1641,130 @@ def _same_i(a, b):
     return True if ta.eq(tb) else ta == tb
 
 
+# ------------------------------------------------------------------------------------------------------------------------
+# remove-frame: removing a target while the scenario runs leaves the other agents, and everything scheduled for them, alone
+# ------------------------------------------------------------------------------------------------------------------------
+_UNIVERSE = (11, 12, 13)
+
+
+def _bare_scenario_for_removal(db, log):
+    from resonaate.scenario import scenario as SC
+
+    class Tok:
+        def __init__(self, aid):
+            self.simulation_id = aid
+
+    class Eng:
+        def removeTarget(self, aid):
+            log.append(("engine.removeTarget", aid))
+
+    class Log:
+        def __getattr__(self, n):
+            return lambda *a, **k: None
+
+    sc = object.__new__(SC.Scenario)
+    sc.target_agents = {a: Tok(a) for a in _UNIVERSE}
+    sc._estimate_agents = {a: Tok(a) for a in _UNIVERSE}
+    sc._tasking_engines = {1: Eng()}
+    sc.logger = Log()
+    sc.database = db
+    sc._importer_db = None
+    return sc
+
+
+def replay_remove(d):
+    """Real in-memory database with one scheduled maneuver per target, real Scenario.removeTarget: what is left for the others."""
+    from resonaate.data.events import EventScope
+    from resonaate.data.events.scheduled_impulse import ScheduledImpulseEvent
+    from resonaate.data.events import Event
+    from resonaate.data.resonaate_database import ResonaateDatabase
+    from sqlalchemy.orm import Query
+
+    db = ResonaateDatabase(None)
+    for a in _UNIVERSE:
+        db.insertData(ScheduledImpulseEvent(scope=EventScope.AGENT_PROPAGATION.value, scope_instance_id=a, start_time_jd=2459000.5 + a, end_time_jd=2459000.5 + a,
+                                            event_type="impulse", thrust_vec_0=0.0, thrust_vec_1=0.001, thrust_vec_2=0.0, thrust_frame="ntw", planned=False))
+    log = []
+    sc = _bare_scenario_for_removal(db, log)
+    removed = int(d["removed"])
+    try:
+        sc.removeTarget(removed, 1)
+    except Exception as e:  # noqa: BLE001
+        return True, {"raised": f"{type(e).__name__}: {e}"[:200]}
+    left = sorted(int(e.scope_instance_id) for e in db.getData(Query(Event)))
+    others = sorted(a for a in _UNIVERSE if a != removed)
+    agents = sorted(sc.target_agents)
+    bad = any(a not in left for a in others) or agents != others or sorted(sc._estimate_agents) != others
+    return bad, {"removed": removed, "scheduled maneuvers left for": left, "targets left": agents}
+
+
+def o_remove_frame(rep):
+    from harness.c01 import eval_where
+    from resonaate.data.events import EventScope
+    from symx.core import SBool, integer, assume
+
+    def run():
+        removed, rid = integer("removed"), integer("row_id")
+        assume(z3.Or(*[removed.t == a for a in _UNIVERSE]), z3.Or(*[rid.t == a for a in _UNIVERSE]))
+        deleted, log = [], []
+
+        class DB:
+            """deleteData / getData evaluate the real query's where-clause on a symbolic event row (one row of each scope, any addressee)."""
+
+            def deleteData(self, query):
+                n = 0
+                for sc_ in EventScope:
+                    row = {"scope": sc_.value, "scope_instance_id": rid, "event_type": "impulse"}
+                    v = eval_where(query.whereclause, row) if query.whereclause is not None else True
+                    if bool(v):
+                        deleted.append(sc_.value)
+                        n += 1
+                return n
+
+            def getData(self, query, multi=True):
+                return [] if multi else None
+
+            def insertData(self, *rows):
+                log.append(("insert", len(rows)))
+
+            def bulkSave(self, rows):
+                log.append(("bulk", len(rows)))
+
+        sc = _bare_scenario_for_removal(DB(), log)
+        before = {k: dict(getattr(sc, k)) for k in ("target_agents", "_estimate_agents")}
+        # the id arrives from the event row as a plain int: one path per member of the universe
+        for a in _UNIVERSE:
+            if bool(removed == a):
+                sc.removeTarget(a, 1)
+                break
+        return removed, rid, deleted, log, sc, before
+
+    res = explore(run, max_paths=64)
+    n = 0
+    for k, r in enumerate(res):
+        if r.exc is not None:
+            rep.prove(f"no-exception#{k} [{type(r.exc).__name__}]", z3.BoolVal(False), r.constraints, inputs=lambda m: {"removed": int(str(m.eval(z3.Int("removed"), model_completion=True)))},
+                      replay=replay_remove, sample="removing an existing target does not raise")
+            continue
+        removed, rid, deleted, log, sc, before = r.out
+        inputs = lambda m: {"removed": int(str(m.eval(z3.Int("removed"), model_completion=True)))}  # noqa: E731
+        # (a) a deleted event row is addressed to the removed target, in the agent-propagation scope
+        ok_rows = z3.And(*[z3.And(rid.t == removed.t, z3.BoolVal(scope == EventScope.AGENT_PROPAGATION.value)) for scope in deleted]) if deleted else z3.BoolVal(True)
+        rep.prove(f"events-of-others-untouched#{k}", ok_rows, r.constraints, inputs=inputs, replay=replay_remove,
+                  sample="whatever removeTarget deletes from the event table is addressed to the removed target (scheduled maneuvers of the other agents stay)")
+        # (b) the other agents are the same objects as before, the removed one is gone, nothing was written
+        same = all(getattr(sc, key).get(a) is before[key][a] for key in before for a in _UNIVERSE if a in getattr(sc, key))
+        gone = z3.And(*[z3.Implies(removed.t == a, z3.BoolVal(all(a not in getattr(sc, key) for key in before) and all(b in getattr(sc, key) for key in before for b in _UNIVERSE if b != a)))
+                        for a in _UNIVERSE])
+        rep.prove(f"agents-frame#{k}", z3.And(z3.BoolVal(bool(same)), gone, z3.BoolVal(not [x for x in log if x[0] in ("insert", "bulk")])), r.constraints, inputs=inputs, replay=replay_remove,
+                  sample="removeTarget drops exactly the removed target and its estimate; every other agent object is untouched; nothing is written")
+        n += 1
+    if n == 0:
+        rep.error("reach", "no path")
+    else:
+        rep.reachable("reach", res[0].constraints if res[0].exc is None else [])
+
+
 def obligations(tier):
     obs = []
     for fam, (expect, tiers) in EXPECT.items():
@@ -1648,6 +1773,8 @@ def obligations(tier):
         name = f"frame-{fam}"
         obs.append(Ob(name, (lambda f, x: lambda rep: o_family(rep, f, x))(fam, expect), f"non-interference of truth, family {fam}: {FAMILIES[fam]}", 880))
         REPLAYS[name] = replay_family
+    obs.append(Ob("remove-frame", o_remove_frame, "Scenario.removeTarget on a running scenario: only the removed target disappears; scheduled events of the other agents stay", 300))
+    REPLAYS["remove-frame"] = replay_remove
     obs.append(Ob("add-config", o_add_config, "run-time additions do not change the truth propagation settings", 300))
     REPLAYS["add-config"] = replay_add
     for ph in ((60, 300) if tier == "quick" else (2, 7, 45, 60, 300, 3080)):
